@@ -12,7 +12,7 @@
    m bytes (all but one at most when term = None: a short write without error) and reports term. *)
 From Coq Require Import String.   (* first, so that List.length etc. from Lib.Base take precedence *)
 From Verif Require Import Lib.Base Lib.Sx Lib.Err Lib.IO Model.ErrorsPkg Model.Faults.
-From Verif Require Import Proofs.ErrorsPkg Proofs.FaultsIO Proofs.Faults Proofs.FaultsFlv Proofs.FaultsWrite Proofs.FaultsBufw Proofs.FaultsBufwPeer.
+From Verif Require Import Proofs.ErrorsPkg Proofs.FaultsIO Proofs.Faults Proofs.FaultsFlv Proofs.FaultsWrite Proofs.FaultsBufw Proofs.FaultsBufwPeer Proofs.FaultsTransient.
 From Verif Require Model.Flv Proofs.Flv.
 From Verif Require Gen.Gen_errors.
 From Verif Require Model.RtmpChunk Proofs.RtmpChunk Proofs.RtmpChunkRT Proofs.FaultsRtmpChunk.
@@ -169,12 +169,16 @@ Example c08_flv_read_example :
 Proof. vm_compute. auto. Qed.
 
 (* ================================ FLV muxer ================================
+   The failure of Write call number i has a shape: it accepts m bytes of the p it was given (0, some,
+   or all of them: (0, e), (0 < n < len p, e), (len p, e)) and reports the error `term`, or it is a
+   short write without error (term = None: n < len p, nil); and it is STICKY (every later Write
+   fails) or TRANSIENT (sticky = false: the following Writes succeed again).  For every shape:
    A fault at Write call number i: the operations before the one that issues call i succeed, that
    operation returns exactly the transport's error (io.ErrShortWrite for a short write without
    error), and the peer has received a prefix of the fault-free file: the first i writes and the
    accepted part of write i.  With no fault in reach everything succeeds and the peer has the file. *)
-Theorem c08_flv_write hv ha tags i m term :
-  let w0 := wtr_new (Some i) m term in
+Theorem c08_flv_write sticky hv ha tags i m term :
+  let w0 := wtr_new_s sticky (Some i) m term in
   let calls := Model.Flv.mux_writes hv ha tags in
   if i <? N.of_nat (length calls) then
     exists w, flv_write_session hv ha tags w0 = (ops_before (flv_wops hv ha tags) i, Some (wt_err w0), w) /\
@@ -183,7 +187,7 @@ Theorem c08_flv_write hv ha tags i m term :
   else
     exists w, flv_write_session hv ha tags w0 = (N.of_nat (1 + length tags), None, w) /\
       wt_received w = Model.Flv.mux hv ha tags.
-Proof. exact (flv_write_fault hv ha tags i m term). Qed.
+Proof. exact (flv_write_fault sticky hv ha tags i m term). Qed.
 
 Example c08_flv_write_example :
   let tags := [Model.Flv.mk_tag 9 5 [1;2;3]; Model.Flv.mk_tag 8 6 []] in
@@ -382,6 +386,25 @@ Example c08_rtmp_write_which_example :
   free_done 4 true ms 0 None = 4.
 Proof. vm_compute. auto. Qed.
 
+(* FAULT SHAPES on the write side.  The faulty Write call accepts m bytes of what it is given and
+   reports e: (0, e), (0 < n < len p, e), (len p, e); and it is sticky or TRANSIENT (sticky = false:
+   the Write calls after it succeed again).  For every shape that reports an error the session has
+   the same outcome as with the sticky transport of c08_rtmp_write_which / c08_rtmp_write_peer: the
+   operation during which a Write returned the error returns that error -- bufio.Writer records it and
+   writes nothing further in that operation, io.Copy returns it at once -- the operations before it
+   succeeded, and the peer holds the same bytes.  (A short write WITHOUT an error, term = None, breaks
+   the io.Writer contract: the sticky case is covered by the theorems above, cause io.ErrShortWrite;
+   for the transient one the model is only run against the implementation -- bufio.Writer may then
+   legitimately write the remainder and succeed.) *)
+Theorem c08_rtmp_write_shapes sticky hs ms i m e :
+  let '(n, oe, w) := rtmp_write_session hs ms (wtr_new_s sticky (Some i) m (Some e)) in
+  let '(ns, oes, ws) := rtmp_write_session hs ms (wtr_new (Some i) m (Some e)) in
+  n = ns /\ oe = oes /\ wt_received w = wt_received ws /\
+  n = free_done i hs ms m (Some e) /\
+  (oe = None <-> free_calls hs ms m (Some e) <= i) /\
+  (oe <> None -> oe = Some e).
+Proof. exact (rtmp_write_session_shapes sticky hs ms i m e). Qed.
+
 (* The same over the rtmpchunk builder's WRITER: `their_wops` are the pieces WriteMessage copies into
    the bufio.Writer, as slices of their wire (c0 header, payload part, c3 header, payload part, ...):
    concatenated per message they are exactly the byte strings ws of `write_all`.  For every message
@@ -460,6 +483,7 @@ Print Assumptions c08_rtmp_plan_size.
 Print Assumptions c08_rtmp_write_partial.
 Print Assumptions c08_rtmp_write_which.
 Print Assumptions c08_rtmp_write_peer.
+Print Assumptions c08_rtmp_write_shapes.
 Print Assumptions c08_rtmp_write.
 Print Assumptions c08_rtmp_write_no_fault.
 Print Assumptions c08_bufio_write_ops.
